@@ -933,10 +933,20 @@ where
         if is_deferred(node) {
             deferred.insert(ix as u16);
         }
-        if deferred.contains(&(ix as u16)) {
-            for child in predicate.node_edges(ix).expect("Already checked") {
-                deferred.insert(*child);
+    }
+    // Propagate to all descendants. Node indices are not required to be in
+    // topological order, so repeat until no new node is added.
+    loop {
+        let before = deferred.len();
+        for ix in 0..predicate.nodes.len() {
+            if deferred.contains(&(ix as u16)) {
+                for child in predicate.node_edges(ix).expect("Already checked") {
+                    deferred.insert(*child);
+                }
             }
+        }
+        if deferred.len() == before {
+            break;
         }
     }
     deferred
